@@ -40,7 +40,8 @@ def gen_prog(rng: random.Random, *, crash: float = 0.08) -> dict[str, Any]:
                 beh = {"until": rng.choice([0, 0, 1, 2, 3])}
             if "ends" in beh and rng.random() < crash:
                 beh["exc"] = rng.randrange(3)
-            prog.append({"op": "start", "tid": n_task, "action": action, "beh": beh, "from_nested": rng.random() < 0.3})
+            prog.append({"op": "start", "tid": n_task, "action": action, "beh": beh, "from_nested": rng.random() < 0.3,
+                         "close_ticks": rng.choice([0, 0, 1, 2])})
     return {"kind": "tasks", "prog": prog, "exit_at": rng.choice([0, 1, 2, 4, 7]), "nested": rng.random() < 0.4}
 
 
